@@ -45,6 +45,8 @@ def gen_case(rng, pkgbase):
              "items": []}
         if pool_types and rng.random() < 0.4:
             t["extends"] = gen.mixcase(rng, rng.choice(pool_types))
+        elif rng.random() < 0.2:
+            pass        # a type without any key or section of its own: '<t/>' is all a text can say
         else:
             t["items"].append({"kind": "key", "name": "v", "attribute": None, "required": False,
                                "handler": None, "datatype": "string", "default": "d"})
@@ -90,13 +92,27 @@ def gen_case(rng, pkgbase):
             # components that import each other: the one imported first decides the reading order
             packages[deps[0]]["imports"] = list(packages[deps[0]]["imports"]) + [pname]
         known += [t["name"] for t in ptypes]
+    clashing = set()
+    if packages and types and rng.random() < 0.12:
+        # a component that defines a type under a name the application schema already uses: its
+        # import is refused, and the refused load must leave nothing behind
+        pn = rng.choice(sorted(packages))
+        victim = rng.choice(packages[pn]["types"])
+        old, new = victim["name"], rng.choice(types)["name"]
+        victim["name"] = new
+        for pa in packages.values():
+            for t in pa["types"]:
+                if t.get("extends") and t["extends"].lower() == old.lower() and t is not victim:
+                    t["extends"] = new
+        clashing.add(pn)
+        ast["_clashing_packages"] = sorted(clashing)
     if packages and rng.random() < 0.3:
         # the application schema itself imports one of the packages (then '%import' of it changes
         # nothing, and a later '%import' of another package is the first that extends the load)
         own = {}
         for pn, pa in packages.items():
             names = set(t["name"].lower() for t in pa["types"])
-            if not pa.get("imports") and all((not t.get("extends")) or t["extends"].lower() in names for t in pa["types"]):
+            if pn not in clashing and not pa.get("imports") and all((not t.get("extends")) or t["extends"].lower() in names for t in pa["types"]):
                 own[pn] = pa
         if own:
             ast["imports"] = [rng.choice(sorted(own))]
@@ -111,6 +127,18 @@ def gen_case(rng, pkgbase):
                                          "items": [{"kind": "key", "name": "v", "attribute": None, "required": False,
                                                     "handler": None, "datatype": "string", "default": "d"}]}}
     return ast, packages
+
+
+def _has_key_v(tname, avail):
+    by = {t["name"].lower(): t for t in avail}
+    t = by.get(tname.lower())
+    met = set()
+    while t is not None and id(t) not in met:
+        met.add(id(t))
+        if any(it["name"] == "v" for it in t["items"]):
+            return True
+        t = by.get(t["extends"].lower()) if t.get("extends") else None
+    return False
 
 
 def gen_guided_text(rng, ast, packages):
@@ -163,7 +191,7 @@ def gen_guided_text(rng, ast, packages):
             used_single.add(id(slot))
         nm = names.pop() if (slot["name"] == "+" or rng.random() < 0.5) and names else None
         head = gen.mixcase(rng, t) + ((" " + nm) if nm else "")
-        if rng.random() < 0.5:
+        if rng.random() < 0.5 or not _has_key_v(t, avail):
             body.append(["<%s/>" % head])
         else:
             body.append(["<%s>" % head, "  v value", "</%s>" % t])
@@ -199,7 +227,9 @@ def gen_text(rng, ast, packages):
     imports = list(packages) + list(packages) + ["zcv_nosuch_pkg", "os", "xml", "zcv"]
     # names that are not package names although a package name is in them
     for p in list(packages)[:2]:
-        imports += [p + ".", "." + p, p + "..", "." + p + ".", p.upper() if p.upper() != p else p + "x"]
+        imports += [p + ".", "." + p, p + "..", "." + p + ".", p.upper() if p.upper() != p else p + "x",
+                    # the whole argument is the name: a good name followed by anything is another name
+                    p + " nosuch", p + " component.xml", p + "\tx", p + " " + p, p + "  # main library"]
     lines = []
     names = ["n1", "n2", "n3", "n4", "n5", "n6", "n7"]
     rng.shuffle(names)
@@ -384,6 +414,8 @@ def run_shard(spec):
             if ref is not None:
                 counters["verdict:" + ref.kind] += 1
                 if ref.kind == "accept":
+                    if ref.stats.get("childless_sections"):
+                        counters["accepted-childless-implementer"] += 1
                     if ref.stats["imported_types_used"]:
                         counters["accepted-with-imported-type"] += 1
                         nt = True
@@ -408,7 +440,7 @@ def run_shard(spec):
 def check_coverage(tier, c):
     problems = []
     for k in ("accepted-with-imported-type", "rule:no-slot", "rule:unknown-type", "rule:abstract-type-named",
-              "rule:import-unknown-package", "verdict:accept"):
+              "rule:import-unknown-package", "rule:import-broken-component", "accepted-childless-implementer", "verdict:accept"):
         if c.get(k, 0) < 20:
             problems.append("class %s has only %d cases" % (k, c.get(k, 0)))
     return problems
